@@ -351,8 +351,24 @@ func (c c07Check) determinism(a c07Args, w *Worker, res *UnitResult) {
 		// one command at a time: A applies it, the clock moves, B applies it with another random stream; the first
 		// command after which the replicas differ is the culprit (later commands would run on diverged states)
 		for i, act := range log {
+			preStep := A.alpha()
+			nowMs := verifrt.Now().UnixMilli()
 			outsS, okS := c07Apply(S, []Action{act}, int64(11+i))
 			outsA, okA := c07Apply(A, []Action{act}, int64(11+i))
+			if okS && okA && unorderedOrRandomReply(act.A[0]) && alphaKey(A.alpha()) != alphaKey(S.alpha()) {
+				// a random selector picked other members than on the standalone reference: the rest of the log cannot
+				// be compared against it (the replica comparison below still judges this command)
+				res.Stats["logs_cut_after_a_random_command"]++
+				outsB, okB := c07Apply(B, []Action{act}, int64(97+i))
+				_ = outsB
+				if okB && alphaKey(A.alpha()) != alphaKey(B.alpha()) {
+					kind, diff := c07DiffKind(A.alpha(), B.alpha())
+					name := strings.ToUpper(act.A[0])
+					res.Findings = append(res.Findings, Finding{Prop: "C07", Kind: "replica-" + kind, Sig: "replica-" + kind + "|" + name, Cost: len(log),
+						Detail: fmt.Sprintf("log [%s]: after %s the two replicas differ: %s", id, act, diff), Replay: map[string]any{"facet": "determinism", "log": log}})
+				}
+				break
+			}
 			if okS && okA && !unorderedOrRandomReply(act.A[0]) {
 				// the acknowledged command must have the effect (and reply) it has when executed directly
 				if pa, ps := A.alpha(), S.alpha(); alphaKey(pa) != alphaKey(ps) {
@@ -361,7 +377,7 @@ func (c c07Check) determinism(a c07Args, w *Worker, res *UnitResult) {
 						Replay: map[string]any{"facet": "determinism", "log": log}})
 					break
 				}
-				if outsS[0].V.Canon(true) != outsA[0].V.Canon(true) {
+				if outsS[0].V.Canon(true) != outsA[0].V.Canon(true) && !(outsS[0].V.IsErr() && outsA[0].V.IsErr()) { // error texts may name different operands (map order)
 					res.Findings = append(res.Findings, Finding{Prop: "C07", Kind: "leader-path-reply", Sig: "leader-path-reply|" + strings.ToUpper(act.A[0]), Cost: len(log),
 						Detail: fmt.Sprintf("log [%s]: %s answered %s through the leader path and %s when executed directly", id, act, outsA[0].Brief(), outsS[0].Brief()),
 						Replay: map[string]any{"facet": "determinism", "log": log}})
@@ -379,7 +395,15 @@ func (c c07Check) determinism(a c07Args, w *Worker, res *UnitResult) {
 				if last.Panic != "" {
 					kind = "panic"
 				}
-				res.Findings = append(res.Findings, Finding{Prop: "C07", Kind: kind, Sig: kind + "|" + name, Cost: len(log),
+				sig := kind + "|" + name
+				for _, arg := range act.A[1:] {
+					for _, m := range preStep {
+						if v, ok := m[arg]; ok && v.Exp != 0 && v.Exp < nowMs {
+							sig = kind + "|a command that touches an expired key through the leader path"
+						}
+					}
+				}
+				res.Findings = append(res.Findings, Finding{Prop: "C07", Kind: kind, Sig: sig, Cost: len(log),
 					Detail: fmt.Sprintf("log [%s] on a single-voter node: %s -> %s", id, act, last.Brief()), Replay: map[string]any{"facet": "determinism", "log": log}})
 				res.HangCase = id
 				return false
@@ -391,7 +415,7 @@ func (c c07Check) determinism(a c07Args, w *Worker, res *UnitResult) {
 				}
 				hashes[hashJSON(alphaKey(postA))] = struct{}{}
 			}
-			if outsA[0].V.Canon(true) != outsB[0].V.Canon(true) && !unorderedOrRandomReply(name) {
+			if outsA[0].V.Canon(true) != outsB[0].V.Canon(true) && !unorderedOrRandomReply(name) && !(outsA[0].V.IsErr() && outsB[0].V.IsErr()) {
 				res.Findings = append(res.Findings, Finding{Prop: "C07", Kind: "reply", Sig: "replica-reply|" + name, Cost: len(log),
 					Detail: fmt.Sprintf("log [%s]: %s acknowledged with %s on one replica and %s on the other", id, act, outsA[0].Brief(), outsB[0].Brief()),
 					Replay: map[string]any{"facet": "determinism", "log": log}})
